@@ -884,10 +884,16 @@ pub(crate) mod b {
             let st = Settings { scale, ..Settings::default() };
             crate::to_svg_with_settings(text, &st)
         };
+        // tags and labels inside boxes are compared from scale 1 upwards only: below 1 the known finding
+        // C11.text_bounds_unscaled_width changes which tag attaches
+        let boxed = [
+            "+--------+\n|     {a}|\n+--------+\n", "+-----+\n| {a} |\n+-----+\n", ".------.\n|{r}   |\n'------'\n", "+-------+\n| hello |\n+-------+\n",
+            "+--------+\n|{a}     |\n+--------+\n", "+---+\n|{a}|\n+---+\n",
+        ];
         let mut n = 0u64;
-        for text in corpus {
+        for (text, scales) in corpus.iter().map(|t| (*t, &[0.5f32, 3.0, 8.0, 37.5][..])).chain(boxed.iter().map(|t| (*t, &[3.0f32, 8.0, 37.5][..]))) {
             let base = length_attributes(&render(text, 1.0));
-            for scale in [0.5f32, 3.0, 8.0, 37.5] {
+            for &scale in scales {
                 let got = length_attributes(&render(text, scale));
                 let same_shape = got.len() == base.len() && got.iter().zip(base.iter()).all(|(g, b)| g.0 == b.0 && g.1 == b.1 && g.2.len() == b.2.len());
                 let mut worst: Option<(String, f64, f64)> = None;
